@@ -2,6 +2,7 @@ package mon
 
 import (
 	"fmt"
+	"reflect"
 	"strings"
 	"time"
 
@@ -40,13 +41,28 @@ var colKinds = []colKind{
 }
 
 // pool: pairwise distinct ids, mixed shapes (IRI, object, actor, activity; value and pointer forms)
+// richActor / richActivity: members that set the properties only their kind declares (an equality that mixes two of them up
+// makes such a member unequal to itself, and the collection stops recognising it)
+func richActor(id vocab.IRI, n string) *vocab.Actor {
+	return &vocab.Actor{ID: id, Type: vocab.PersonType, PreferredUsername: vocab.NaturalLanguageValues{{Ref: vocab.NilLangRef, Value: vocab.Content(n)}},
+		Inbox: id + "/inbox", Outbox: id + "/outbox", Following: id + "/following", Followers: id + "/followers", Liked: id + "/liked",
+		Streams: vocab.ItemCollection{id + "/streams/1"}, Endpoints: &vocab.Endpoints{SharedInbox: vocab.IRI("https://example.com/shared-inbox"), OauthTokenEndpoint: id + "/token"},
+		PublicKey: vocab.PublicKey{ID: id + "#main-key", Owner: id, PublicKeyPem: "pem"}, Published: time.Date(2010, 1, 1, 0, 0, 0, 0, time.UTC)}
+}
+
+func richActivity(id vocab.IRI) *vocab.Activity {
+	return &vocab.Activity{ID: id, Type: vocab.LikeType, Object: vocab.IRI("https://example.com/items/1"), Actor: vocab.IRI("https://example.com/items/2"), Target: id + "/target", Result: id + "/result",
+		Origin: id + "/origin", Instrument: id + "/instrument", Summary: vocab.NaturalLanguageValues{{Ref: "en", Value: vocab.Content("liked")}, {Ref: "fr", Value: vocab.Content("aimé")}},
+		To: vocab.ItemCollection{vocab.IRI("https://example.com/items/2/followers")}, Updated: time.Date(2020, 1, 1, 0, 0, 0, 0, time.UTC)}
+}
+
 func newPool() []vocab.Item {
 	return []vocab.Item{
 		vocab.IRI("https://example.com/items/0"),
 		// instants grow with the pool index: insertion order is oldest first, so a collection that re-orders by time shows at once
 		&vocab.Object{ID: "https://example.com/items/1", Type: vocab.NoteType, Name: vocab.NaturalLanguageValues{{Ref: vocab.NilLangRef, Value: vocab.Content("one")}}, Published: time.Date(2001, 1, 1, 0, 0, 0, 0, time.UTC)},
-		&vocab.Actor{ID: "https://example.com/items/2", Type: vocab.PersonType, PreferredUsername: vocab.NaturalLanguageValues{{Ref: vocab.NilLangRef, Value: vocab.Content("two")}}, Published: time.Date(2010, 1, 1, 0, 0, 0, 0, time.UTC)},
-		&vocab.Activity{ID: "https://example.com/items/3", Type: vocab.LikeType, Object: vocab.IRI("https://example.com/items/1"), Actor: vocab.IRI("https://example.com/items/2"), Updated: time.Date(2020, 1, 1, 0, 0, 0, 0, time.UTC)},
+		richActor("https://example.com/items/2", "two"),
+		richActivity("https://example.com/items/3"),
 		vocab.Object{ID: "https://example.com/items/4", Type: vocab.ArticleType, Published: time.Date(2005, 6, 1, 0, 0, 0, 0, time.UTC), Updated: time.Date(2030, 1, 1, 0, 0, 0, 0, time.UTC)},
 		vocab.IRI("https://EXAMPLE.com/items/5/"),
 	}
@@ -81,7 +97,9 @@ func bigPool(n int) []vocab.Item {
 		case 1:
 			out = append(out, &vocab.Object{ID: id, Type: vocab.NoteType, Published: time.Date(2000, 1, 1+i, 0, 0, 0, 0, time.UTC)})
 		case 2:
-			out = append(out, &vocab.Actor{ID: id, Type: vocab.PersonType, Updated: time.Date(2000, 1, 1+i, 12, 0, 0, 0, time.UTC)})
+			a := richActor(id, fmt.Sprint("actor ", i))
+			a.Published, a.Updated = time.Time{}, time.Date(2000, 1, 1+i, 12, 0, 0, 0, time.UTC)
+			out = append(out, a)
 		case 3:
 			out = append(out, &vocab.Activity{ID: id, Type: vocab.LikeType, Object: vocab.IRI("https://example.com/big/liked")})
 		default:
@@ -182,6 +200,10 @@ func runHistory(c *Ctx, ck colKind, start string, ops []colOp) {
 	case "prefilled":
 		prefill = vocab.ItemCollection{pool[1], pool[0]}
 		model = []int{1, 0}
+	case "prefilled+total":
+		// what a decoded collection looks like: the members and a totalItems that agrees with them
+		prefill = vocab.ItemCollection{pool[1], pool[0]}
+		model = []int{1, 0}
 	case "spare":
 		backing := make(vocab.ItemCollection, 2, 6)
 		backing[0], backing[1] = pool[2], pool[4]
@@ -191,6 +213,13 @@ func runHistory(c *Ctx, ck colKind, start string, ops []colOp) {
 		model = []int{2, 4}
 	}
 	col := ck.New(prefill)
+	if start == "prefilled+total" {
+		if ev := reflect.ValueOf(col).Elem(); ev.Kind() == reflect.Struct {
+			if f := ev.FieldByName("TotalItems"); f.IsValid() {
+				f.SetUint(uint64(len(prefill)))
+			}
+		}
+	}
 	label := fmt.Sprintf("%s/%s/%s", ck.Name, start, opsString(ops))
 	fail := func(step int, what, effect string, detail map[string]any) {
 		op := "init"
@@ -326,7 +355,7 @@ func runHistory(c *Ctx, ck colKind, start string, ops []colOp) {
 	c.Count("histories", 1)
 }
 
-var starts = []string{"empty", "prefilled", "spare"}
+var starts = []string{"empty", "prefilled", "spare", "prefilled+total"}
 
 func init() {
 	// exhaustive histories: all sequences of length <= L over {A,R} x pool plus a Contains probe (Contains is checked after every step anyway)
